@@ -744,6 +744,11 @@ pub(super) fn on_close(k: &mut Kernel, fd: Fd) -> bool {
                 if bind.local_port != listener_port {
                     continue;
                 }
+                // A wildcard listener only owns the half-open children of its
+                // own address family: `0.0.0.0:p` and `[::]:p` can both listen.
+                if bind.local_addr.is_ipv4() != local.ip().is_ipv4() {
+                    continue;
+                }
                 if !wildcard && bind.local_addr != local.ip() {
                     continue;
                 }
